@@ -147,6 +147,8 @@ def analyse_arctan2(ctx, mod, short):
 
 
 def run(ctx):
+    from xfabsa import numeric as _N
+    _N.alias_rule(ctx, 'C03', ['xfab/tools.py', 'xfab/laue.py'])
     ctx.rule("ctor", "constructor entries == documented product of elementary rotations (E3), which is a proper rotation")
     ctx.rule("rod", "u_to_rod applied to the reference Rodrigues matrix returns r")
     ctx.rule("euler-inv", "u_to_euler reads the entries euler_to_u writes: (y, x) = p*(sin, cos) with p = sin(PHI) > 0")
